@@ -67,6 +67,9 @@ type Call struct {
 type Fault struct {
 	Err     error // fail with this error
 	Partial int   // walk: report only this many qids (≥1) even if more exist; 0 = no change
+	// WithPlaceholder: open / opendir / create return, next to the error, non-nil placeholder
+	// values that must never be used (ramfs returns its noHandle this way)
+	WithPlaceholder bool
 }
 
 type FS struct {
@@ -105,8 +108,9 @@ type Handle struct {
 }
 
 type OpenFile struct {
-	H      *Handle
-	inCall int32
+	H           *Handle
+	inCall      int32
+	placeholder bool // returned together with an error: must never be used
 }
 
 var ErrInjected = p9p.MessageRerror{Ename: "injected failure"}
@@ -318,6 +322,13 @@ func (h *Handle) OpenDir(ctx context.Context) (p9p.ReadNext, error) {
 	_, f := h.fs.enter("opendir", h, ctx, nil)
 	defer h.fs.leave(h)
 	if f != nil && f.Err != nil {
+		if f.WithPlaceholder {
+			fs := h.fs
+			return func(ctx context.Context) ([]p9p.Dir, error) {
+				fs.violate("the placeholder directory iterator returned together with an OpenDir error (handle %d) was used", h.ID)
+				return nil, f.Err
+			}, f.Err
+		}
 		return nil, f.Err
 	}
 	fs := h.fs
@@ -392,6 +403,12 @@ func (h *Handle) Create(ctx context.Context, name string, perm uint32, mode p9p.
 	c, f := h.fs.enter("create", h, ctx, []string{name})
 	defer h.fs.leave(h)
 	if f != nil && f.Err != nil {
+		if f.WithPlaceholder {
+			h.fs.mu.Lock()
+			ph := h.fs.newHandle(nil, false, c)
+			h.fs.mu.Unlock()
+			return ph, &OpenFile{H: ph, placeholder: true}, f.Err
+		}
 		return nil, nil, f.Err
 	}
 	fs := h.fs
@@ -422,6 +439,9 @@ func (h *Handle) Open(ctx context.Context, mode p9p.Flag) (p9p.File, error) {
 	_, f := h.fs.enter("open", h, ctx, nil)
 	defer h.fs.leave(h)
 	if f != nil && f.Err != nil {
+		if f.WithPlaceholder {
+			return &OpenFile{H: h, placeholder: true}, f.Err
+		}
 		return nil, f.Err
 	}
 	h.fs.mu.Lock()
@@ -510,6 +530,9 @@ func (h *Handle) WStat(ctx context.Context, d p9p.Dir) error {
 
 func (of *OpenFile) enter(op string, ctx context.Context) *Fault {
 	h := of.H
+	if of.placeholder {
+		h.fs.violate("%s on the placeholder file value that was returned together with an open/create error (handle %d)", op, h.ID)
+	}
 	if n := atomic.AddInt32(&of.inCall, 1); n > 1 {
 		h.fs.violate("overlapping calls on the open file of handle %d (op %s)", h.ID, op)
 	}
